@@ -194,6 +194,20 @@ inductive FilterKind
   | respectingFully (f : FilterFn)
 deriving DecidableEq, Repr
 
+/-- the translator's spelling of what a generator of `gen_replace_filter` returns -/
+def FilterKind.ofString : String → Option FilterKind
+  | "always" => some .always
+  | "plain:ops" => some (.plain .ops)
+  | "plain:multi" => some (.plain .multi)
+  | "plain:many" => some (.plain .many)
+  | "respecting:ops" => some (.respecting .ops)
+  | "respecting:multi" => some (.respecting .multi)
+  | "respecting:many" => some (.respecting .many)
+  | "fully:ops" => some (.respectingFully .ops)
+  | "fully:multi" => some (.respectingFully .multi)
+  | "fully:many" => some (.respectingFully .many)
+  | _ => none
+
 structure Env where
   /-- leaf pass `i`: new state and whether it raised (a raising pass leaves its partial edits) -/
   leaf : Nat → St → St × Option Err
